@@ -261,6 +261,53 @@ def run(rep):
                 rep.case("walk-git", key=(dag_str(d), tuple(stamps), repr(w)), nontrivial=True)
                 if set(g) != set(got):
                     rep.fail("walk-differs-from-git", "git rev-list yields %s, the walker %s" % (sorted(g), sorted(got)), case)
+    # ---- the walk queue and _topo_reorder against the model (Model/Walk.v)
+    reqs, meta = [], []
+    small = []
+    for n in range(1, 5):
+        small += list(all_dags(n))
+    pool = small + [random_dag(rng, rng.choice([6, 9, 14])) for _ in range(40 if not thorough else 600)]
+    for d in (rng.sample(pool, min(len(pool), 120)) if not thorough else pool):
+        n = len(d)
+        stamps = rng.sample(range(100, 100 + 3 * n + 5), n)          # pairwise distinct: the pop order is then fully determined
+        incs = [[rng.randrange(n)] for _ in range(2)] + [rng.sample(range(n), min(n, 2))]
+        orders = []
+        for _ in range(3):
+            sub = sorted(set().union(*[closure(d, i) for i in rng.sample(range(n), min(n, rng.choice([1, 2])))]))
+            rng.shuffle(sub)
+            orders.append(sub)
+        orders.append(sorted(range(n), reverse=True))
+        reqs.append({"fn": "walk_model", "dag": dag_str(d), "stamps": stamps, "includes": incs, "orders": orders})
+        meta.append((d, stamps, incs, orders))
+    lines = []
+    for (d, stamps, incs, orders) in meta:
+        for inc in incs:
+            lines.append("walk %s %s %s" % (dag_str(d), ",".join(map(str, stamps)), ".".join(map(str, inc))))
+        for o in orders:
+            lines.append("topo %s %s" % (dag_str(d), ".".join(map(str, o)) or "-"))
+    mres = iter(model.run(lines))
+    for (d, stamps, incs, orders), r in zip(meta, impl.run(reqs)):
+        if "walk" not in r:
+            rep.fail("walk-model-worker", "walk comparison failed: %r" % (r,), {"dag": dag_str(d)})
+            for _ in incs + orders:
+                next(mres)
+            continue
+        for inc, got in zip(incs, r["walk"]):
+            m = next(mres)
+            case = {"dag": dag_str(d), "stamps": stamps, "include": inc}
+            rep.case("walk-vs-model", key=(dag_str(d), tuple(stamps), tuple(inc)), nontrivial=len(d) > 2, sample=case)
+            if m != got:
+                rep.disagree("Walker (date order, no excludes) vs Walk.walk", case, m, got)
+        for o, got in zip(orders, r["topo"]):
+            m = next(mres)
+            case = {"dag": dag_str(d), "entries": o}
+            rep.case("topo-vs-model", key=(dag_str(d), tuple(o)), nontrivial=len(o) > 2, sample=case)
+            if m != got:
+                rep.disagree("_topo_reorder vs Walk.topo", case, m, got)
+            seq = [int(x) for x in got.split(".")] if got not in ("-", "") and not got.startswith("exc") else []
+            pos = {c: i for i, c in enumerate(seq)}
+            if sorted(seq) != sorted(o) or any(pos[p] < pos[c] for c in pos for p in d[c] if p in pos):
+                rep.fail("topo-order-wrong", "_topo_reorder(%s) = %s: not a permutation with children before parents" % (o, got), case)
     # git as oracle on a sample
     reqs, meta = [], []
     for _ in range(6 if not thorough else 80):
